@@ -42,6 +42,34 @@ def ev(f, a):
     raise TypeError(repr(f))
 
 
+def size(f):
+    if isinstance(f, int):
+        return 1
+    if isinstance(f, (And, Or)):
+        return 1 + sum(size(x) for x in f.input_list)
+    if isinstance(f, Not):
+        return 1 + size(f.c)
+    return 1 + size(f.p) + size(f.q)
+
+
+def iffs(f):
+    if isinstance(f, int):
+        return 0
+    if isinstance(f, (And, Or)):
+        return sum(iffs(x) for x in f.input_list)
+    if isinstance(f, Not):
+        return iffs(f.c)
+    return (1 if isinstance(f, Iff) else 0) + iffs(f.p) + iffs(f.q)
+
+
+def conversions_for(f, which):
+    """The naive and switching conversions are exponential (distribution, nested Iff): they are run only on formulas
+    of moderate size; Tseitin on all."""
+    if size(f) <= 40 and iffs(f) <= 3:
+        return which
+    return tuple(w for w in which if w == "tseitin")
+
+
 def gen_formula(rng, depth, nvars, shared=None):
     """Random formula; `shared` is a pool of sub-formulas reused to hit the Tseitin cache."""
     r = rng.random()
@@ -107,14 +135,13 @@ def twin_formulas(rng, big):
     operand lists): what a cache keyed on a normalised or order-insensitive rendering would confuse."""
     atoms = [1, 2, -1, -2, 3, And([1, 2]), Or([2, 3]), Not(1), And([2, -3]), If(1, 3)]
     pairs = [(p, q) for p in atoms for q in atoms if repr(p) != repr(q)]
-    if not big:
-        pairs = rng.sample(pairs, 30)
+    pairs = rng.sample(pairs, 45 if big else 30)
     wrap = [lambda a, b: And([a, b]), lambda a, b: Or([a, b]), lambda a, b: Iff(a, b), lambda a, b: If(a, b),
             lambda a, b: Or([Not(a), Not(b), 3]), lambda a, b: And([a, Not(b)])]
     for p, q in pairs:
         for mk in (If, Iff, lambda a, b: And([a, b]), lambda a, b: Or([a, b])):
             a, b = mk(p, q), mk(q, p)
-            for w in (wrap if big else rng.sample(wrap, 2)):
+            for w in rng.sample(wrap, 3 if big else 2):
                 yield w(a, b), 4
 
 
@@ -141,7 +168,7 @@ def corr_logic(ctx, which=("tseitin", "naive", "switching")):
     for f, nxt in formulas(ctx):
         fj = to_json(f)
         nontriv = not isinstance(f, int)
-        for name in which:
+        for name in conversions_for(f, which):
             py, g, _ = _py_conv(name, f, nxt)
             le = d.ask({"op": "logic", "m": name, "f": fj, "next": nxt})
             ctx.count("I1." + name)
@@ -214,7 +241,7 @@ def oracle_c11(ctx, budget_s, which=("tseitin", "naive", "switching")):
         if ctx.elapsed() > t_end:
             ctx.notes.append("C11 oracle stopped by budget")
             return
-        for name in which:
+        for name in conversions_for(f, which):
             r = c11_case(f, nxt, name)
             ctx.count("C11.oracle." + name)
             ctx.case(("C11", name, repr(to_json(f)), nxt), not isinstance(f, int))
